@@ -21,6 +21,7 @@ import (
 	"golang.org/x/mod/sumdb/dirhash"
 	modzip "golang.org/x/mod/zip"
 
+	"verif/harness/gen"
 	"verif/harness/hx"
 	"verif/harness/wire"
 )
@@ -833,7 +834,7 @@ func c19Prefix(r *rand.Rand) (string, string) {
 	case k < 13:
 		return "", "empty"
 	default:
-		return pickStr(r, ".", "./p", "p/", "p//q", "a/../b", "/abs", "/", "..", "../x", "p/.", "p/..", "./", "a/./b", "//x", "a/", ".x/", "..."), "odd"
+		return pickStr(r, ".", "./p", "p/", "p//q", "a/../b", "/abs", "/", "..", "../x", "p/.", "p/..", "./", "a/./b", "//x", "a/", ".x/", "../b/../c", "a/../../z", "../..", "."), "odd"
 	}
 }
 
@@ -923,7 +924,7 @@ func c19Mutate(r *rand.Rand, a []c19E) ([]c19E, string) {
 		return b, "spaces"
 	default:
 		// name <-> content confusion
-		b[i].N, b[i].C = b[i].N+"x", b[i].C
+		b[i].N = b[i].N + "x"
 		if r.Intn(2) == 0 && len(b[i].C) > 0 && !strings.Contains(b[i].C, "\n") {
 			b[i].N, b[i].C = b[i].C, a[i].N
 		}
@@ -1327,7 +1328,22 @@ func c19ModuleZips(c *hx.Ctx) {
 	for i := 0; i < c.N(400); i++ {
 		m := c19ModVersions[r.Intn(len(c19ModVersions))]
 		prefix := m.Path + "@" + m.Version
-		t := c19ModFiles(r)
+		var t []c19E
+		switch i % 4 {
+		case 0:
+			t = c19ModFiles(r)
+			c.Count("modzip-files:c19")
+		case 1:
+			for _, f := range gen.ModuleFileList(r) {
+				t = append(t, c19E{N: f.P, C: string(f.Content)})
+			}
+			c.Count("modzip-files:gen.ModuleFileList")
+		default:
+			for _, f := range gen.ValidModuleFileList(r) {
+				t = append(t, c19E{N: f.P, C: string(f.Content)})
+			}
+			c.Count("modzip-files:gen.ValidModuleFileList")
+		}
 		msg := c19ModZip(prefix, t)
 		if strings.HasPrefix(msg, "skip: ") {
 			c.Count("modzip:refused-by-zip.Create")
